@@ -799,3 +799,131 @@ def desugar_ifexp(fn):
         if hasattr(fn, attr):
             setattr(clone, attr, getattr(fn, attr))
     return clone
+
+
+def module_functions(tree, is_known):
+    """New plain module-level functions (unknown to the role table) that can be substituted at their call sites:
+    name -> (params, body).  Only positional parameters without defaults, no generator, no nested scopes, not recursive."""
+    out = {}
+    for n in tree.body:
+        if not isinstance(n, ast.FunctionDef) or is_known(n.name) or n.decorator_list:
+            continue
+        a = n.args
+        if a.vararg or a.kwarg or a.kwonlyargs or a.defaults or a.posonlyargs:
+            continue
+        inner = list(ast.walk(n))[1:]
+        if any(isinstance(x, (ast.Yield, ast.YieldFrom, ast.FunctionDef, ast.AsyncFunctionDef, ast.Lambda, ast.ClassDef,
+                              ast.Global, ast.Nonlocal)) for x in inner):
+            continue
+        if any(isinstance(x, ast.Name) and x.id == n.name for x in inner):
+            continue
+        body = [st for i, st in enumerate(n.body)
+                if not (i == 0 and isinstance(st, ast.Expr) and isinstance(st.value, ast.Constant) and isinstance(st.value.value, str))]
+        if not body:
+            continue
+        out[n.name] = ([p.arg for p in a.args], body)
+    return out
+
+
+def inline_module_functions(fn, funcs):
+    """A call of a new module-level helper is replaced by the helper's body when the call is a whole statement:
+    `return f(..)` (the helper's returns become the caller's; falling off the end returns None), `f(..)` (helper without a
+    value-returning `return` except as its last statement) and `x = f(..)` (helper whose only `return` is its last
+    statement).  Parameters are bound by assignment in front of the body unless the argument is the parameter's own name.
+    Nothing is done when the helper's locals collide with the caller's."""
+    if not funcs or not isinstance(fn, (ast.FunctionDef, ast.AsyncFunctionDef)) or fn.name in funcs:
+        return fn
+
+    def call_of(st):
+        v = None
+        if isinstance(st, ast.Return):
+            v = st.value
+        elif isinstance(st, ast.Expr):
+            v = st.value
+        elif isinstance(st, ast.Assign) and len(st.targets) == 1 and isinstance(st.targets[0], ast.Name):
+            v = st.value
+        if isinstance(v, ast.Call) and isinstance(v.func, ast.Name) and v.func.id in funcs and not v.keywords \
+                and not any(isinstance(a, ast.Starred) for a in v.args) and len(v.args) == len(funcs[v.func.id][0]):
+            return v
+        return None
+
+    def returns_of(body):
+        return [x for st in body for x in ast.walk(st) if isinstance(x, ast.Return)]
+
+    def usable(st, call):
+        params, body = funcs[call.func.id]
+        rets = returns_of(body)
+        if isinstance(st, ast.Return):
+            return True
+        last_only = all(r is body[-1] for r in rets)
+        if isinstance(st, ast.Expr):
+            return last_only or all(r.value is None for r in rets) and False
+        return len(rets) == 1 and rets[0] is body[-1] and rets[0].value is not None
+
+    def find(root):
+        for n in [root] + list(_own_nodes(root)):
+            for field in ('body', 'orelse', 'finalbody'):
+                lst = getattr(n, field, None)
+                if not isinstance(lst, list):
+                    continue
+                for i, st in enumerate(lst):
+                    c = call_of(st)
+                    if c is not None and usable(st, c):
+                        return lst, i, st, c
+        return None
+    if find(fn) is None:
+        return fn
+    work = _relink(_strip(fn), getattr(fn, '_parent', None))
+    for _ in range(8):
+        hit = find(work)
+        if hit is None:
+            break
+        lst, i, st, call = hit
+        params, body = funcs[call.func.id]
+        callee_locals = {x.id for b in body for x in ast.walk(b) if isinstance(x, ast.Name) and isinstance(x.ctx, ast.Store)}
+        bound = {p for p, a in zip(params, call.args) if not (isinstance(a, ast.Name) and a.id == p)}
+        # names of the caller that are still read after the call (or anywhere in a loop around it) must not be overwritten
+        # by the helper's locals; nor may a parameter binding overwrite a name a later argument reads
+        end = getattr(st, 'end_lineno', getattr(st, 'lineno', 0))
+        live = {x.id for x in _own_nodes(work) if isinstance(x, ast.Name) and isinstance(x.ctx, ast.Load) and getattr(x, 'lineno', 0) > end}
+        loop = _enclosing(st, (ast.For, ast.While), work)
+        if loop is not None:
+            live |= {x.id for x in ast.walk(loop) if isinstance(x, ast.Name) and isinstance(x.ctx, ast.Load)}
+        arg_reads = {x.id for a in call.args for x in ast.walk(a) if isinstance(x, ast.Name)}
+        ren = {nm: f'{nm}__{call.func.id}' for nm in (callee_locals | bound) if nm in live or (nm in bound and nm in arg_reads)}
+
+        class _R(ast.NodeTransformer):
+            def visit_Name(self, n):
+                if n.id in ren:
+                    return ast.copy_location(ast.Name(id=ren[n.id], ctx=n.ctx), n)
+                return n
+        new = []
+        for p, a in zip(params, call.args):
+            tgt = ren.get(p, p)
+            if isinstance(a, ast.Name) and a.id == tgt:
+                continue
+            new.append(ast.Assign(targets=[ast.Name(id=tgt, ctx=ast.Store())], value=_strip(a), type_comment=None))
+        copied = [_R().visit(_strip(b)) for b in body]
+        if isinstance(st, ast.Return):
+            if not isinstance(copied[-1], (ast.Return, ast.Raise)):
+                copied.append(ast.Return(value=ast.Constant(value=None)))
+        elif isinstance(st, ast.Expr):
+            if isinstance(copied[-1], ast.Return):
+                last = copied.pop()
+                if last.value is not None and not is_pure(last.value):
+                    copied.append(ast.Expr(value=last.value))
+        else:
+            last = copied.pop()
+            copied.append(ast.Assign(targets=[_strip(st.targets[0])], value=last.value, type_comment=None))
+        new += copied
+        for x in new:
+            for y in ast.walk(x):
+                if not hasattr(y, 'lineno') or True:
+                    y.lineno = getattr(st, 'lineno', 1)
+                    y.col_offset = getattr(st, 'col_offset', 0)
+                    y.end_lineno = getattr(st, 'end_lineno', y.lineno)
+                    y.end_col_offset = getattr(st, 'end_col_offset', 0)
+        lst[i:i + 1] = new
+        _relink(work, getattr(fn, '_parent', None))
+    work._normalised = True
+    return work
